@@ -263,3 +263,46 @@ func RunBinary(args []string, stdin []byte, extraEnv ...string) Result {
 	}
 	return res
 }
+
+// BinaryPath: path of the real octosql binary built by build_octosql.sh.
+func BinaryPath() string { return filepath.Join(binDir(), "octosql") }
+
+// RunCommand runs an arbitrary program (e.g. strace wrapping the real binary) with the same child
+// environment as RunBinary. Exit is -1 when the program was terminated by a signal.
+func RunCommand(path string, args []string, stdin []byte, extraEnv ...string) Result {
+	c := exec.Command(path, args...)
+	c.Env = childEnv(extraEnv...)
+	var out, errb bytes.Buffer
+	c.Stdout = &out
+	c.Stderr = &errb
+	if stdin != nil {
+		c.Stdin = bytes.NewReader(stdin)
+	}
+	if err := c.Start(); err != nil {
+		return Result{Crash: "cannot start: " + err.Error()}
+	}
+	done := make(chan error, 1)
+	go func() { done <- c.Wait() }()
+	var res Result
+	select {
+	case err := <-done:
+		res.Out = out.String()
+		res.Stderr = errb.String()
+		if err != nil {
+			if ee, ok := err.(*exec.ExitError); ok {
+				res.Exit = ee.ExitCode()
+			} else {
+				res.Exit = -1
+			}
+			res.Err = strings.TrimSpace(res.Stderr)
+			if res.Err == "" {
+				res.Err = err.Error()
+			}
+		}
+	case <-time.After(90 * time.Second):
+		c.Process.Kill()
+		<-done
+		res.Hang = true
+	}
+	return res
+}
